@@ -8,7 +8,7 @@ import tempfile
 from hypothesis import strategies as st
 
 from .. import spec as SP
-from ..core import Failure, drive, drive_enum
+from ..core import sstr, Failure, drive, drive_enum
 from ..gen import models as M
 from ..gen import render as RD
 from . import c10, c12
@@ -31,7 +31,7 @@ LEVEL_TEXT = (
 LEVEL_NOTE = "UnexpectedError is an MPilotError and therefore an allowed outcome; what a SyntaxError looks like through the CLI is not part of the statement."
 RULE = (
     "Cases: (matrix) library, command, parameter, raw kind; (corrupt) model or rendering + corruption; (csv) model + "
-    "hostile file content. Oracle: outcome in {success, SyntaxError, MPilotError}; str(exc) renders; CLI exit code != 0 "
+    "hostile file content. Oracle: outcome in {success, SyntaxError, MPilotError}; sstr(exc) renders; CLI exit code != 0 "
     "and stderr contains the message. Non-trivial: an error raised outside execute() (lexing, grammar actions, EEMS-2 "
     "conversion, add_command, validation pass) or a CSV fault reaching EEMSRead.execute; distinct = digest of the case."
 )
@@ -100,12 +100,10 @@ def cli_check(text, tmp, io, exc, sig):
         return fails
     import re
 
-    want = "Problem: An unexpected error occurred" if isinstance(exc, UnexpectedError) else str(exc)
+    want = "Problem: An unexpected error occurred" if isinstance(exc, UnexpectedError) else sstr(exc)
     norm = lambda s: re.sub(r"0x[0-9a-fA-F]+", "0x", s)  # object reprs carry addresses that differ between the two runs
     if norm(want) not in norm(stderr):
         fails.append(Failure("%s|cli_message_missing" % sig, "stderr %r lacks %r" % (stderr[-300:], want[:200])))
-    if "ERROR: There was a problem running the MPilot command file." not in stderr:
-        fails.append(Failure("%s|cli_banner_missing" % sig, stderr[-200:]))
     return fails
 
 
@@ -165,9 +163,48 @@ def check_matrix(case, rec):
     return fails
 
 
+# ------------------------------------------------------------------------------------ (a2) EEMS 2.0 syntax
+
+def v2_cases():
+    from . import c16
+
+    for v2, target in sorted(c16.EEMS2.items()):
+        if target is None:
+            continue
+        for p in ("InFieldName", "NewFieldName", "OutFileName", "InFieldNames"):
+            for rk in RAW_KINDS:
+                yield {"v2": v2, "param": p, "raw": rk}
+
+
+def check_v2(case, rec):
+    from . import c16
+
+    io = SP.CSV
+    t = SP.table(io)
+    target = c16.EEMS2[case["v2"]]
+    c = c12.canonical(target, "X", t[target], {"nf": "Src", "fz": "Fz"}, io)
+    args = [a for a in c["args"] if a[0] != case["param"]]
+    parts = ["%s = %s" % (k, c12.fmt(v)) for k, v in args]
+    if case["param"] != "NewFieldName":
+        parts.append("NewFieldName = X")
+    parts.insert(len(parts) // 2, "%s = %s" % (case["param"], RAW_KINDS[case["raw"]]))
+    text = c12.text_of(c12.base_commands(io)) + "%s(%s)\n" % (case["v2"], ", ".join(parts))
+    tmp = tempfile.mkdtemp(prefix="vcheck-c13-")
+    try:
+        c12.prepare_dir(tmp, io)
+        fails, kind, exc = judge(text, tmp, io, rec, "v2|%s<-%s" % (case["param"], case["raw"]), cli=False)
+    finally:
+        shutil.rmtree(tmp, ignore_errors=True)
+    rec.label("v2_syntax")
+    if exc is not None:
+        rec.nontrivial_case(case)
+        rec.label("v2_error_outside_execute", sample={"text": text.splitlines()[-1], "error": type(exc).__name__})
+    return fails
+
+
 # ------------------------------------------------------------------------------------ (b) corruptions
 
-CHARS = list("()[]=,:#\"'\\ \n\t") + ["a", "1", ".", "-", "+", "é", "\r\n", "True", "[a, b:c]", "[x:y, z]", "=[", "](", '"\\"', "'\\x'"]
+CHARS = list("()[]=,:#\"'\\ \n\t") + ["9" * 4301, "1." + "0" * 5000, "-" + "7" * 5000 + " ", "a", "1", ".", "-", "+", "é", "\r\n", "True", "[a, b:c]", "[x:y, z]", "=[", "](", '"\\"', "'\\x'"]
 
 
 @st.composite
@@ -296,10 +333,11 @@ def check_csv(case, rec):
     return fails
 
 
-PARTS = {"matrix": check_matrix, "corrupt": check_corrupt, "csv": check_csv}
+PARTS = {"matrix": check_matrix, "v2": check_v2, "corrupt": check_corrupt, "csv": check_csv}
 
 
 def run_shard(ctx, rec):
     drive_enum(ctx, rec, "matrix", matrix_cases(), check_matrix, exhaustive=True, max_novel=12)
+    drive_enum(ctx, rec, "v2", v2_cases(), check_v2, exhaustive=True, max_novel=12)
     drive(ctx, rec, "corrupt", corrupt_cases(), check_corrupt, ctx.n(2500, 60000), max_novel=6)
     drive(ctx, rec, "csv", csv_cases(), check_csv, ctx.n(800, 20000))
